@@ -1,3 +1,394 @@
-/- C16: property theorems (none yet). -/
+/-
+C16 — WASI file operations behave like a POSIX-style reference model.
+
+Property theorems only (proofs by lemma application; the lemmas live in `Wz/Proofs/C16_*.lean`).
+Three cores:
+  (1) `descriptor.Table` (bitmap words + dense items) and the descriptor level of `FSContext`
+      (`Wz.Model.FdTable`): refinement of a partial map with lowest-free allocation for ALL op sequences,
+      validity of a descriptor until it is closed, the specification of renumber and its failure on the
+      pinned tree (F17);
+  (2) `DirentCache.Read` + `maxDirents` + `writeDirents` (`Wz.Model.Readdir`): completeness of the
+      enumeration for every listing, every schedule of buffer lengths ≥ 24 and the client protocol;
+  (3) the reference file system (`Wz.Model.RefFS`): one byte list per file under read/write/pread/pwrite/
+      seek/tell/append/truncate.
+-/
+import Wz.Proofs.C16_Table
+import Wz.Proofs.C16_Readdir
+import Wz.Proofs.C16_Content
+
 namespace Wz.C16
+open Wz.Model.FdTable Wz.Proofs.C16Table
+
+/-! ## (1) descriptor table -/
+
+/-- The regenerated constants the models use are the ones the theorems were proved for. -/
+theorem constants : Wz.Gen.WasiFs.DirentSize = 24 ∧ Wz.Gen.WasiFs.FdPreopen = 3 ∧
+    Wz.Gen.WasiFs.FILETYPE_DIRECTORY = 3 ∧ Wz.Gen.WasiFs.FILETYPE_REGULAR_FILE = 4 := by decide
+
+/-- `table_refines_map`: for EVERY sequence of Insert / InsertAt / Lookup / Delete / Reset starting from the
+empty table, the outputs of the bitmap+slice implementation are the outputs of a partial map `Nat ⇀ α` whose
+Insert returns the lowest free key (`ARun` is the run of that specification), and the final table denotes
+the final map. -/
+theorem table_refines_map {α : Type} [Inhabited α] (ops : List (Op α)) :
+    (Table.empty.run ops).1.WF ∧
+    ARun (fun _ => none) ops ((Table.empty : Table α).run ops).2 (abs (Table.empty.run ops).1) := by
+  have h := run_refines (Table.empty : Table α) ops empty_wf
+  rw [empty_abs] at h
+  exact h
+
+/-- the specification leaves no choice: outputs and resulting map are determined by the history -/
+theorem table_spec_deterministic {α : Type} [Inhabited α] {m m1 m2 : Nat → Option α} {op : Op α} {o1 o2 : Out α}
+    (h1 : AStep m op o1 m1) (h2 : AStep m op o2 m2) : o1 = o2 ∧ m1 = m2 :=
+  AStep_deterministic h1 h2
+
+/-- Insert returns the lowest free key and changes nothing else (single step, any well-formed table). -/
+theorem insert_lowest_free {α : Type} [Inhabited α] (t : Table α) (a : α) (h : t.WF) :
+    abs t (t.insert a).2 = none ∧ (∀ j, j < (t.insert a).2 → (abs t j).isSome = true) ∧
+    abs (t.insert a).1 = upd (abs t) (t.insert a).2 (some a) :=
+  (insert_spec t a h).2
+
+example : (Table.empty : Table Nat).WF := empty_wf
+-- TEST (sample): insert, insert, delete 0, insert reuses key 0
+example : ((((((Table.empty : Table Nat).insert 7).1.insert 8).1.delete 0).insert 9).2) = 0 := by decide
+
+/-- descriptor-level operations as data -/
+inductive COp where
+  | openNew (preopen : Bool)
+  | close (fd : Int)
+  | renumber (a b : Int)
+
+def COp.names (fd : Int) : COp → Bool
+  | .openNew _ => false
+  | .close f => f == fd
+  | .renumber a b => a == fd || b == fd
+
+def stepC (s : Bool) (c : Ctx) : COp → Ctx
+  | .openNew p => (c.openNew p).1
+  | .close fd => (c.close fd).1
+  | .renumber a b => (c.renumber s a b).1
+
+def runC (s : Bool) (c : Ctx) : List COp → Ctx
+  | [] => c
+  | op :: ops => runC s (stepC s c op) ops
+
+/-- reachable contexts are well-formed with distinct identities -/
+theorem ctx_inv_step (s : Bool) (c : Ctx) (op : COp) (h : CtxWF c) (hd : Distinct c) :
+    CtxWF (stepC s c op) ∧ Distinct (stepC s c op) := by
+  cases op with
+  | openNew p => exact ⟨openNew_wf c p h, distinct_openNew c p h hd⟩
+  | close fd => exact ⟨close_wf c fd h, distinct_close c fd h hd⟩
+  | renumber a b => exact ⟨renumber_wf s c a b h, distinct_renumber s c a b h hd⟩
+
+theorem fd_step_other (s : Bool) (c : Ctx) (op : COp) (fd : Int) (h : CtxWF c) (hd : Distinct c)
+    (hl : c.live fd = true) (hn : op.names fd = false) :
+    (stepC s c op).live fd = true ∧ (stepC s c op).lookup fd = c.lookup fd := by
+  cases op with
+  | openNew p =>
+    have sp := openNew_spec c p h
+    have hne : fd ≠ ((c.openNew p).2 : Int) := by
+      intro e
+      have h0 := sp.1
+      rw [← e] at h0
+      unfold Ctx.live Ctx.lookup at hl
+      rw [h0] at hl
+      simp at hl
+    have hlk := sp.2.2.2.1 fd hne
+    refine ⟨?_, hlk⟩
+    unfold Ctx.live at hl ⊢
+    show (match (c.openNew p).1.lookup fd with | none => false | some e => !(c.openNew p).1.closed.contains e.id) = true
+    rw [hlk, sp.2.2.2.2]
+    exact hl
+  | close f =>
+    have hne : fd ≠ f := by
+      intro e; simp [COp.names, e] at hn
+    have r := close_other c fd f h hd hne
+    exact ⟨r.2 hl, r.1⟩
+  | renumber a b =>
+    have h1 : fd ≠ a := by intro e; simp [COp.names, e] at hn
+    have h2 : fd ≠ b := by intro e; simp [COp.names, e] at hn
+    have r := renumber_other s c fd a b h hd h1 h2
+    exact ⟨r.2 hl, r.1⟩
+
+/-- `fd_valid_until_closed`: through ANY history of opens, closes and renumbers that does not name `fd`
+(as the closed descriptor, or as source or target of a renumber), a live descriptor stays live and keeps
+denoting the same open file — on the pinned tree and on the repaired variant alike. -/
+theorem fd_valid_until_closed (s : Bool) (ops : List COp) (c : Ctx) (fd : Int) (h : CtxWF c) (hd : Distinct c)
+    (hl : c.live fd = true) (hn : ∀ op ∈ ops, op.names fd = false) :
+    (runC s c ops).live fd = true ∧ (runC s c ops).lookup fd = c.lookup fd := by
+  induction ops generalizing c with
+  | nil => exact ⟨hl, rfl⟩
+  | cons op ops ih =>
+    have st := fd_step_other s c op fd h hd hl (hn op (List.mem_cons_self ..))
+    have iv := ctx_inv_step s c op h hd
+    have r := ih (stepC s c op) iv.1 iv.2 st.1 (fun o ho => hn o (List.mem_cons_of_mem _ ho))
+    exact ⟨r.1, r.2.trans st.2⟩
+
+-- non-vacuity: the initial context (stdio + one pre-open) meets the hypotheses, descriptor 3 is live
+example : CtxWF Ctx.init ∧ Distinct Ctx.init ∧ Ctx.init.live 3 = true := ⟨init_wf, distinct_init, by decide⟩
+
+/-- `renumber_spec` (repaired variant, `selfNoop = true`): a successful renumber moves the entry and closes
+the previous target; onto itself it changes nothing. -/
+theorem renumber_spec (c : Ctx) (a b : Int) (h : CtxWF c) (hd : Distinct c)
+    (hok : (c.renumber true a b).2 = .ok) :
+    (a = b → (c.renumber true a b).1 = c) ∧
+    (a ≠ b →
+      (c.renumber true a b).1.lookup b = c.lookup a ∧
+      (c.renumber true a b).1.lookup a = none ∧
+      (∀ e, c.lookup b = some e → e.id ∈ (c.renumber true a b).1.closed) ∧
+      (c.live a = true → (c.renumber true a b).1.live b = true)) :=
+  renumber_spec_fixed c a b h hd hok
+
+/-- FULL STATEMENT that fails on the pinned tree: `renumber_spec` with `selfNoop = false`.
+Proved part (pinned tree): everything except `a = b`. -/
+theorem renumber_spec_partial (c : Ctx) (a b : Int) (h : CtxWF c) (hd : Distinct c)
+    (hok : (c.renumber false a b).2 = .ok) (hne : a ≠ b) :
+    (c.renumber false a b).1.lookup b = c.lookup a ∧
+    (c.renumber false a b).1.lookup a = none ∧
+    (∀ e, c.lookup b = some e → e.id ∈ (c.renumber false a b).1.closed) ∧
+    (c.live a = true → (c.renumber false a b).1.live b = true) :=
+  renumber_spec_asis_partial c a b h hd hok hne
+
+/-- F17 (witness, pinned tree): path_open → fd 4; fd_renumber(4,4) succeeds, fd 4 stays in the table, its
+file is closed.  So `renumber_spec` is false for `selfNoop = false`. -/
+theorem renumber_self_witness :
+    let c := (Ctx.init.openNew false).1
+    c.live 4 = true ∧ (c.renumber false 4 4).2 = .ok ∧
+    ((c.renumber false 4 4).1.lookup 4).isSome = true ∧ (c.renumber false 4 4).1.live 4 = false :=
+  Wz.Proofs.C16Table.renumber_self_witness
+
+theorem renumber_spec_false_asis :
+    ¬ (∀ (c : Ctx) (a b : Int), CtxWF c → Distinct c → (c.renumber false a b).2 = .ok →
+        a = b → (c.renumber false a b).1 = c) := by
+  intro hall
+  have w := renumber_self_witness
+  have hwf : CtxWF (Ctx.init.openNew false).1 := openNew_wf _ _ init_wf
+  have hdi : Distinct (Ctx.init.openNew false).1 := distinct_openNew _ _ init_wf distinct_init
+  have e := hall (Ctx.init.openNew false).1 4 4 hwf hdi w.2.1 rfl
+  have l := w.2.2.2
+  rw [e] at l
+  rw [w.1] at l
+  exact Bool.noConfusion l
+
+-- non-vacuity of `renumber_spec`: a successful renumber 4 → 7 exists
+example : ((Ctx.init.openNew false).1.renumber true 4 7).2 = .ok := by decide
+
+/-! ## (2) fd_readdir -/
+
+open Wz.Model.Readdir Wz.Proofs.C16Readdir in
+/-- `readdir_complete`: for every listing, every directory inode and EVERY sequence of buffer lengths
+(each ≥ 24 and a u32), a client that follows the protocol — cookie 0 first, then the `d_next` of the last
+complete entry; stop when `bufused < buf_len` — never gets an error, has at every moment received exactly a
+prefix of `.`, `..`, listing (in order, each once, `d_next` = index + 1), and when the end is signalled has
+received all of it. -/
+theorem readdir_complete (listing : List Dirent) (dotIno : Nat) (bs : List Nat)
+    (hb : ∀ b ∈ bs, 24 ≤ b ∧ b < 2^32) :
+    let c := Cache.fresh listing dotIno
+    let cl := (Client.start c).run bs
+    cl.failed = none ∧ cl.acc = c.full.take cl.cookie ∧ cl.cookie ≤ c.full.length ∧
+    (cl.done = true → cl.acc = c.full) := by
+  intro c cl
+  have hi := client_run_inv c.full (Client.start c) bs (client_start_inv c (fresh_inv listing dotIno))
+    (fun b hbm => hb b hbm)
+  exact ⟨hi.2.2.1, hi.2.2.2.1, hi.2.2.2.2.1, hi.2.2.2.2.2.2⟩
+
+open Wz.Model.Readdir Wz.Proofs.C16Readdir in
+/-- `rewind_ok`: the same from ANY cache state reachable by fd_readdir calls whatsoever (stale or huge
+cookies, too short buffers included): cookie 0 restarts a complete enumeration. `Inv` is kept by every
+call (`readdir_call_inv`) and holds initially. -/
+theorem rewind_ok (c : Cache) (h : Inv c) (bs : List Nat) (hb : ∀ b ∈ bs, 24 ≤ b ∧ b < 2^32) :
+    let cl := (Client.start c).run bs
+    cl.failed = none ∧ cl.acc = c.full.take cl.cookie ∧ (cl.done = true → cl.acc = c.full) := by
+  intro cl
+  have hi := client_run_inv c.full (Client.start c) bs (client_start_inv c h) (fun b hbm => hb b hbm)
+  exact ⟨hi.2.2.1, hi.2.2.2.1, hi.2.2.2.2.2.2⟩
+
+open Wz.Model.Readdir Wz.Proofs.C16Readdir in
+theorem readdir_call_inv (c : Cache) (bufLen cookie : Nat) (h : Inv c) (hb32 : bufLen < 2^32) :
+    Inv (fdReaddirCore c bufLen cookie).1 ∧ (fdReaddirCore c bufLen cookie).1.full = c.full :=
+  call_inv c bufLen cookie h hb32
+
+open Wz.Model.Readdir Wz.Proofs.C16Readdir in
+/-- `truncated_not_skipped`: one call at a cookie the client may hold. The complete entries are the next
+`k` entries; the end is signalled only when nothing is left; if no entry fitted although one is left, the
+buffer is reported full and carries that entry's header with its true name length (so the client can grow
+the buffer); a buffer that can hold the next entry delivers it. -/
+theorem truncated_not_skipped (c : Cache) (bufLen cookie : Nat) (h : Inv c) (hr : Reach c cookie)
+    (hb : 24 ≤ bufLen) (hb32 : bufLen < 2^32) :
+    ∃ core k, (fdReaddirCore c bufLen cookie).2 = .ok core ∧
+      core.complete cookie = numbered ((c.full.drop cookie).take k) cookie ∧
+      (core.bufused bufLen < bufLen → cookie + k = c.full.length) ∧
+      (k = 0 → cookie < c.full.length →
+          core.bufused bufLen = bufLen ∧ core.truncatedHeader = c.full[cookie]?) ∧
+      (∀ d, c.full[cookie]? = some d → 24 + d.name.length ≤ bufLen → 1 ≤ k) := by
+  obtain ⟨core, k, h1, _, _, h4, _, _, h7, _, h9, h10⟩ := call_spec c bufLen cookie h hr hb hb32
+  exact ⟨core, k, h1, h4, h7, h9, h10⟩
+
+open Wz.Model.Readdir Wz.Proofs.C16Readdir in
+/-- the enumeration terminates: with buffers that can hold the longest name, `|full| + 1` rounds suffice -/
+theorem readdir_terminates (listing : List Dirent) (dotIno : Nat) (bs : List Nat)
+    (hb : ∀ b ∈ bs, b < 2^32 ∧ ∀ d ∈ (Cache.fresh listing dotIno).full, 24 + d.name.length ≤ b)
+    (hlen : (Cache.fresh listing dotIno).full.length + 1 ≤ bs.length) :
+    ((Client.start (Cache.fresh listing dotIno)).run bs).done = true := by
+  have := client_terminates (Cache.fresh listing dotIno).full (Client.start (Cache.fresh listing dotIno)) bs
+    (client_start_inv _ (fresh_inv listing dotIno)) hb (by simpa [Client.start] using hlen)
+  exact this
+
+open Wz.Model.Readdir Wz.Proofs.C16Readdir in
+/-- the bytes in the guest buffer are the serialisation of exactly those entries -/
+theorem readdir_bytes (k : Core) (cookie : Nat) (hk : k.bufToWrite > 0) (hc : k.direntCount ≤ k.ds.length)
+    (hpos : k.truncatedLen > 0 → k.direntCount ≥ 1) :
+    k.written cookie =
+      (k.complete cookie).flatMap (fun p => header p.1 p.2 ++ p.2.name) ++
+      (match k.truncatedHeader with
+       | some d => header (cookie + 1 + k.nComplete) d
+       | none => []) :=
+  written_spec k cookie hk hc hpos
+
+-- TEST (sample): 3 entries, buffers of 30 bytes then large: the client sees ., .., a, bb, ccc
+example :
+    let l : List Wz.Model.Readdir.Dirent := [⟨[97], 5, 4⟩, ⟨[98, 98], 6, 3⟩, ⟨[99, 99, 99], 7, 4⟩]
+    let cl := (Wz.Model.Readdir.Client.start (Wz.Model.Readdir.Cache.fresh l 77)).run [30, 30, 30, 30, 30, 30, 30, 600]
+    cl.done = true ∧ cl.acc.map (·.name) = [[46], [46, 46], [97], [98, 98], [99, 99, 99]] := by decide
+
+/-! ## (3) file content -/
+
+open Wz.Model.RefFS Wz.Proofs.C16Content in
+/-- `file_content_refinement` (byte level): the three content functions are characterised byte by byte —
+a write replaces exactly the written range (a gap reads as zeros), a read returns the bytes at the offset
+and is short only at the end of the file, truncate cuts or zero-extends. -/
+theorem file_content_refinement (c : List Nat) (off : Nat) (bs : List Nat) (len n i : Nat) :
+    (bs ≠ [] → (writeAt c off bs)[i]? =
+        if off ≤ i ∧ i < off + bs.length then bs[i - off]?
+        else if i < c.length then c[i]? else if i < off then some 0 else none) ∧
+    writeAt c off [] = c ∧
+    (readAt c off len)[i]? = (if i < len then c[off + i]? else none) ∧
+    (readAt c off len).length = min len (c.length - off) ∧
+    (truncateTo c n)[i]? = (if i < n then (if i < c.length then c[i]? else some 0) else none) ∧
+    readAt (writeAt c off bs) off bs.length = bs ∧
+    writeAt c c.length bs = c ++ bs :=
+  ⟨writeAt_get c off bs i, writeAt_empty c off, readAt_get c off len i, readAt_length c off len,
+   truncateTo_get c n i, read_after_write c off bs, append_write c bs⟩
+
+open Wz.Model.RefFS Wz.Proofs.C16Content in
+/-- `file_content_refinement` (descriptor level): fd_write through a live writable description writes into
+the single byte list of its inode at the description's offset — at the end of the file in append mode —,
+leaves every other file alone and advances the offset; so all descriptions of the same inode see it. -/
+theorem write_one_content (fs : FS) (fd : Int) (bs : List Nat) (id : Nat) (d : Desc)
+    (hd : fs.desc fd = .ok (id, d)) (hf : d.isDir = false) (hw : d.canWrite = true) (hne : bs ≠ [])
+    (hn : (fs.node d.ino).isSome = true) :
+    let off := if d.append then (fs.content d.ino).length else d.offset
+    (fs.fdWrite fd bs).2 = (.ok, bs.length) ∧
+    (fs.fdWrite fd bs).1.content d.ino = writeAt (fs.content d.ino) off bs ∧
+    (∀ ino', ino' ≠ d.ino → (fs.fdWrite fd bs).1.content ino' = fs.content ino') ∧
+    aget (fs.fdWrite fd bs).1.descs id = some { d with offset := off + bs.length } :=
+  fdWrite_spec fs fd bs id d hd hf hw hne hn
+
+open Wz.Model.RefFS Wz.Proofs.C16Content in
+theorem pwrite_one_content (fs : FS) (fd : Int) (bs : List Nat) (off id : Nat) (d : Desc)
+    (hd : fs.desc fd = .ok (id, d)) (hf : d.isDir = false) (hw : d.canWrite = true) (ha : d.append = false)
+    (hne : bs ≠ []) (hn : (fs.node d.ino).isSome = true) :
+    (fs.fdPwrite fd bs off).2 = (.ok, bs.length) ∧
+    (fs.fdPwrite fd bs off).1.content d.ino = writeAt (fs.content d.ino) off bs ∧
+    (∀ ino', ino' ≠ d.ino → (fs.fdPwrite fd bs off).1.content ino' = fs.content ino') ∧
+    (fs.fdPwrite fd bs off).1.descs = fs.descs :=
+  fdPwrite_spec fs fd bs off id d hd hf hw ha hne hn
+
+open Wz.Model.RefFS Wz.Proofs.C16Content in
+theorem read_one_content (fs : FS) (fd : Int) (len id : Nat) (d : Desc)
+    (hd : fs.desc fd = .ok (id, d)) (hf : d.isDir = false) (hr : d.canRead = true) (hl : len ≠ 0) :
+    (fs.fdRead fd len).2 = (.ok, readAt (fs.content d.ino) d.offset len) ∧
+    (∀ ino, (fs.fdRead fd len).1.content ino = fs.content ino) ∧
+    aget (fs.fdRead fd len).1.descs id =
+      some { d with offset := d.offset + min len ((fs.content d.ino).length - d.offset) } :=
+  fdRead_spec fs fd len id d hd hf hr hl
+
+open Wz.Model.RefFS Wz.Proofs.C16Content in
+theorem pread_one_content (fs : FS) (fd : Int) (len off id : Nat) (d : Desc)
+    (hd : fs.desc fd = .ok (id, d)) (hf : d.isDir = false) (hr : d.canRead = true) (hl : len ≠ 0) :
+    fs.fdPread fd len off = (fs, .ok, readAt (fs.content d.ino) off len) :=
+  fdPread_spec fs fd len off id d hd hf hr hl
+
+open Wz.Model.RefFS Wz.Proofs.C16Content in
+theorem seek_tell_offsets (fs : FS) (fd : Int) (off : Int) (whence id : Nat) (d : Desc)
+    (hd : fs.desc fd = .ok (id, d)) (hf : d.isDir = false) (hw : whence ≤ 2) :
+    let base : Int := if whence = 0 then 0 else if whence = 1 then d.offset else (fs.content d.ino).length
+    (base + off < 0 → fs.fdSeek fd off whence = (fs, .inval, 0)) ∧
+    (0 ≤ base + off →
+      (fs.fdSeek fd off whence).2 = (.ok, (base + off).toNat) ∧
+      aget (fs.fdSeek fd off whence).1.descs id = some { d with offset := (base + off).toNat } ∧
+      ∀ ino, (fs.fdSeek fd off whence).1.content ino = fs.content ino) ∧
+    (fs.fdTell fd).2 = (.ok, d.offset) :=
+  ⟨(fdSeek_spec fs fd off whence id d hd hf hw).1, (fdSeek_spec fs fd off whence id d hd hf hw).2,
+   fdTell_spec fs fd id d hd hf⟩
+
+open Wz.Model.RefFS Wz.Proofs.C16Content in
+theorem truncate_one_content (fs : FS) (fd : Int) (size : Nat) (id : Nat) (d : Desc)
+    (hd : fs.desc fd = .ok (id, d)) (hf : d.isDir = false) (hw : d.canWrite = true)
+    (hn : (fs.node d.ino).isSome = true) :
+    (fs.fdSetSize fd size).2 = .ok ∧
+    (fs.fdSetSize fd size).1.content d.ino = truncateTo (fs.content d.ino) size ∧
+    (∀ ino', ino' ≠ d.ino → (fs.fdSetSize fd size).1.content ino' = fs.content ino') ∧
+    (fs.fdSetSize fd size).1.descs = fs.descs ∧
+    fs.fdStat fd = (.ok, Wz.Gen.WasiFs.FILETYPE_REGULAR_FILE, (fs.content d.ino).length) :=
+  ⟨(fdSetSize_spec fs fd size id d hd hf hw hn).1, (fdSetSize_spec fs fd size id d hd hf hw hn).2.1,
+   (fdSetSize_spec fs fd size id d hd hf hw hn).2.2.1, (fdSetSize_spec fs fd size id d hd hf hw hn).2.2.2,
+   fdStat_size fs fd id d hd hf⟩
+
+-- non-vacuity of the descriptor-level hypotheses: create a file, its descriptor 4 is a live writable
+-- regular-file description whose inode exists.
+def sampleFS : Wz.Model.RefFS.FS := ((Wz.Model.RefFS.FS.init false).pathOpen 3 ["a"]
+  { creat := true, directory := false, excl := false, trunc := false, append := false, rightRead := true, rightWrite := true }).1
+
+example : ∃ id d, sampleFS.desc 4 = .ok (id, d) ∧ d.isDir = false ∧ d.canWrite = true ∧ d.canRead = true ∧
+    (sampleFS.node d.ino).isSome = true :=
+  ⟨4, { ino := 1, offset := 0, append := false, canRead := true, canWrite := true, isDir := false, name := ["a"] }, by
+    refine ⟨?_, rfl, rfl, rfl, ?_⟩ <;> rfl⟩
+
+
+/-! ## (4) directory changes are visible to later lookups: descriptors denote directories, not names -/
+
+open Wz.Model.RefFS in
+/-- the history of finding F24: mkdir a; open a → 4; rename a → b -/
+def f24History (byName : Bool) : FS :=
+  let fs0 := FS.init false byName
+  let fs1 := (fs0.mkdir 3 ["a"]).1
+  let fs2 := (fs1.pathOpen 3 ["a"]
+    { creat := false, directory := true, excl := false, trunc := false, append := false, rightRead := true, rightWrite := false }).1
+  (fs2.rename 3 ["a"] 3 ["b"]).1
+
+open Wz.Model.RefFS in
+/-- `dirfd_follows_rename` (repaired variant, `byName = false`): a rename changes neither the descriptor
+table nor the open descriptions, so every descriptor denotes the same directory (inode) as before; and a path
+relative to a directory descriptor starts from that directory — whatever it is called now — unless the
+directory itself has been removed (then nothing can be found in it). -/
+theorem dirfd_follows_rename (fs : FS) (h : fs.byName = false) (f1 f2 : Int) (c1 c2 : List String)
+    (fd : Int) (comps : List String) :
+    (fs.rename f1 c1 f2 c2).1.desc fd = fs.desc fd ∧
+    (∀ id d, fs.desc fd = .ok (id, d) → d.isDir = true →
+      (((fs.rename f1 c1 f2 c2).1.node d.ino).map (·.dead)).getD false = false →
+      (fs.rename f1 c1 f2 c2).1.atPath fd comps = .ok (d.ino, comps)) := by
+  have key : (fs.rename f1 c1 f2 c2).1.ctx = fs.ctx ∧ (fs.rename f1 c1 f2 c2).1.descs = fs.descs ∧
+      (fs.rename f1 c1 f2 c2).1.byName = fs.byName := by
+    unfold FS.rename
+    repeat' split
+    all_goals (try exact ⟨rfl, rfl, rfl⟩)
+    all_goals (simp only [FS.setNode]; repeat' split)
+    all_goals exact ⟨rfl, rfl, rfl⟩
+  have hdesc : (fs.rename f1 c1 f2 c2).1.desc fd = fs.desc fd := by
+    unfold FS.desc
+    rw [key.1, key.2.1]
+  refine ⟨hdesc, ?_⟩
+  intro id d hd hdir hdead
+  unfold FS.atPath
+  rw [hdesc, hd]
+  simp [hdir, key.2.2, h, hdead]
+
+open Wz.Model.RefFS in
+/-- F24 (witness, pinned tree `byName = true`): after `mkdir a; open a → 4; rename a b`, creating `x`
+through descriptor 4 fails with ENOENT, while in the repaired variant it succeeds and `b/x` exists. -/
+theorem dirfd_rename_witness :
+    ((f24History true).mkdir 4 ["x"]).2 = .noent ∧
+    ((f24History false).mkdir 4 ["x"]).2 = .ok ∧
+    (((f24History false).mkdir 4 ["x"]).1.pathStat 3 ["b", "x"]).1 = .ok := by decide
+
 end Wz.C16
